@@ -227,4 +227,48 @@ theorem outcomesG_eq (o : FOps) (hc : CeilInRange o) (l : List Op) : ∀ d, outc
   | nil => intro d; rfl
   | cons op t ih => intro d; simp only [outcomesG, outcomes, stepG_eq o hc, ih]
 
+/-! ### the whole public alphabet -/
+
+theorem callG_fst (o : FOps) (hc : CeilInRange o) (d : Db) (c : Call) :
+    (callG o d c).1 = match c with | .op op => (step o d op).1 | _ => d := by
+  cases c with
+  | op op => simp only [callG, callGW]; exact congrArg Prod.fst (stepG_eq o hc d op)
+  | _ => rfl
+
+theorem callG_defined (o : FOps) (hc : CeilInRange o) (d : Db) (hd : DbInv d) (c : Call) (u : Ub) :
+    (callG o d c).2 ≠ .ub u := by
+  cases c with
+  | op op =>
+    simp only [callG, callGW]
+    have h : (stepGW Guards.source o d op).2 = (step o d op).2 := congrArg Prod.snd (stepG_eq o hc d op)
+    rw [h]
+    cases hr : (step o d op).2 with
+    | ok a => intro hh; cases hh
+    | throw e => intro hh; cases hh
+    | ub u' => exact absurd hr (step_defined o hc d hd op u')
+  | dbTracks => intro hh; cases hh
+  | dbTrackById id => intro hh; cases hh
+  | dbTracksByPath p => intro hh; cases hh
+  | dbUuid => intro hh; cases hh
+  | dbVersionName => intro hh; cases hh
+  | dbDirectory => intro hh; cases hh
+  | dbVerify => intro hh; cases hh
+
+theorem callG_inv (o : FOps) (hc : CeilInRange o) (d : Db) (hd : DbInv d) (c : Call) : DbInv (callG o d c).1 := by
+  rw [callG_fst o hc]
+  cases c with
+  | op op => exact step_inv o d hd op
+  | _ => exact hd
+
+theorem callOutcomes_defined (o : FOps) (hc : CeilInRange o) (l : List Call) :
+    ∀ d, DbInv d → ∀ r ∈ callOutcomes o d l, ∀ u, r ≠ .ub u := by
+  induction l with
+  | nil => intro d _ r hr; cases hr
+  | cons c t ih =>
+    intro d hd r hr u
+    simp only [callOutcomes, List.mem_cons] at hr
+    rcases hr with e | e
+    · rw [e]; exact callG_defined o hc d hd c u
+    · exact ih _ (callG_inv o hc d hd c) r e u
+
 end EngineModel.Api.GuardedTracksV1
